@@ -39,6 +39,12 @@ impl MulShiftedValue {
     /// is not a power of 2.
     #[must_use]
     pub fn which_power_of_2(mut number: KnownWord) -> Option<usize> {
+        // A power of two has exactly one bit set; halving an even number like ten would otherwise
+        // pass through two on its way down (10, 5, 2)
+        if number.value_le().count_ones() != 1 {
+            return None;
+        }
+
         let two = KnownWord::from_le(2u8);
         if number == KnownWord::from_le(1u8) {
             Some(0)
